@@ -28,6 +28,8 @@ Wrap      == {"plain", "padded",         \* padded: the same text with blanks/ta
               "raises_true_text", "raises_t_text"}   \* failures whose message reads like a truth value ("true") or merely
                                                      \* begins like one ("tuple index out of range"): still failures
 Neighbour == {"none", "ok_before", "ok_after"}   \* another expression of the same kind on the same tracepoint
+Frame     == {"function", "classbody"}           \* what kind of code the paused line belongs to: a class body has a
+                                                 \* namespace of its own too (its "locals" are the class attributes so far)
 
 VARIABLES case, expected
 vars == <<case, expected>>
@@ -57,7 +59,13 @@ Shown(c) ==
       [] c.site = "metric"    -> [fires |-> TRUE, src |-> o]      \* numeric value, or 1
       [] c.site = "label"     -> [fires |-> TRUE, src |-> o]      \* text of the value, or an error text
 
-Cases == [nc : NameClass, site : Site, wrap : Wrap, nb : Neighbour]
+Nested == {"local_nested", "shadow_nested"}
+(* the class-body frame is explored with the name classes Python itself resolves there (code nested in an expression of a
+   class body does not see the class namespace), healthy and failing, without a neighbour *)
+Cases == {c \in [nc : NameClass, site : Site, wrap : Wrap, nb : Neighbour, frame : Frame] :
+             c.frame = "classbody" => /\ c.nc \notin Nested
+                                      /\ c.wrap \in {"plain", "padded", "raises_exception"}
+                                      /\ c.nb = "none"}
 
 Init == /\ case \in Cases
         /\ expected = Shown(case)
